@@ -223,8 +223,11 @@ def oracle(ctx):
         tail = ['Exec=run "" "the end"'] if ty == 'container' else []   # (an empty argument is an argument)
         base_text = sec + '\n'.join(lines + tail) + '\n'
         new_text = sec + '\n'.join(lines + [line] + tail) + '\n'
-        base_ops.append(f'convert\t0\t0\t{hx("/q/a." + ty)}\t{hx(base_text)}')
-        new_ops.append(f'convert\t0\t0\t{hx("/q/a." + ty)}\t{hx(new_text)}')
+        # the unit's file name is an input of the converters too (templates and instances have other defaults): a key's option is
+        # the same whatever the file is called
+        stem = rnd.choice(['a', 'a', 'a', 'tpl@', 'tpl@inst', 'x.y', 'my app'])
+        base_ops.append(f'convert\t0\t0\t{hx("/q/" + stem + "." + ty)}\t{hx(base_text)}')
+        new_ops.append(f'convert\t0\t0\t{hx("/q/" + stem + "." + ty)}\t{hx(new_text)}')
         metas.append((ty, key, kind, spec, exp_v, new_text))
     bo = ctx.impl(base_ops)
     no = ctx.impl(new_ops)
